@@ -484,8 +484,8 @@ func (ru *Runner) checkBalance(snap []tor.VerifRequestedPiece) {
 	}
 	got := map[[2]int]int{}
 	for _, e := range snap {
-		if len(e.Prio) == 0 && !ru.idleAdds[int(e.Index)] {
-			ru.violate("balance:empty-entry", fmt.Sprintf("piece %d is requested with no priority and was never idle-requested", e.Index))
+		if len(e.Prio) == 0 && !ru.idleAdds[int(e.Index)] && !ru.idlePrefetcherMayWant(e.Index) {
+			ru.violate("balance:empty-entry", fmt.Sprintf("piece %d is requested with no priority; no consumer idle-requested it and the idle prefetcher has no business with it", e.Index))
 		}
 		for _, p := range e.Prio {
 			got[[2]int{int(e.Index), int(p)}]++
@@ -1126,7 +1126,22 @@ func (ru *Runner) Readers() []RInfo {
 	return out
 }
 
-func (ru *Runner) LastSnapEmpty() bool   { return len(ru.lastSnap) == 0 }
+// idlePrefetcherMayWant: in the oracle-only sections the request ticker can be armed, and the
+// real idle prefetcher is a legitimate requester — of pieces that are NOT verified.
+func (ru *Runner) idlePrefetcherMayWant(i uint32) bool {
+	return ru.racing && int(i) < ru.S.N && !ru.S.T.Pieces.Complete(i)
+}
+
+// LastSnapEmpty: nothing is requested any more, except what the idle prefetcher may
+// legitimately want (priority-less entries of unverified pieces).
+func (ru *Runner) LastSnapEmpty() bool {
+	for _, e := range ru.lastSnap {
+		if len(e.Prio) != 0 || !ru.idlePrefetcherMayWant(e.Index) {
+			return false
+		}
+	}
+	return true
+}
 func (ru *Runner) Dead() bool            { return ru.dead }
 func (ru *Runner) IsComplete(i int) bool { return i < len(ru.complete) && ru.complete[i] }
 func (ru *Runner) Holds() map[[2]int]int { return ru.holds }
